@@ -204,3 +204,14 @@ check(
     'Three actions per configuration, finite seed set (rotated by VERIF_SEED).',
     'DESIGN.md 3/C04',
 )
+check(
+    'C20',
+    'exhaustive enumeration of gym-level operation sequences (action indices, resets, representation switches) against a twin inner environment',
+    'Every shipped configuration wrapped directly and every registered id (through gym.make and through the registered '
+    'entry point) is driven with all action-index sequences up to depth 1-3 (thorough 2-4), with a reset inserted at every '
+    'position and the observation representation switched at every position, also under GymStateWrapper; every returned '
+    'observation/state, reward, flag and info is compared with a twin inner environment (same file, same seed) stepped '
+    'with action_space.actions[i]; outputs must lie in the advertised spaces, which must follow representation switches.',
+    'seed()/render() out of scope in this image; gym.make with disable_env_checker=True.',
+    'DESIGN.md 3/C20',
+)
